@@ -61,7 +61,7 @@ class Scen:
         has_plain = r.random() < 0.75
         has_vec = (not has_plain) or r.random() < 0.6
         if self.flavour == "H":
-            self.bounds = gens.good_buckets(r)
+            self.bounds = gens.good_buckets(r) if r.random() < 0.92 else [gens.PINF]      # [+Inf] alone: no finite bound at all
         if has_plain:
             o = mkopts(name, "help", consts=consts)
             if self.flavour == "H":
